@@ -16,6 +16,10 @@ mod world;
 use mcx::Tier;
 
 fn main() {
+    mcx::guard_main(real_main);
+}
+
+fn real_main() {
     let args: Vec<String> = std::env::args().collect();
     if args.len() < 3 {
         eprintln!("usage: busmc <C02|C03|C04|C05|C09|C10|C11|C12> <quick|thorough> | busmc replay <file>");
